@@ -19,6 +19,8 @@ def classify(ref, got):
     gs, go = got[0], vlib.unesc(got[1])
     if gs.startswith("stuck"):
         return "stage-output-not-executable"
+    if gs == "fuel" and rs != "fuel":
+        return "does-not-terminate"
     if rs.startswith("panic") and go.startswith(ro) and (gs != rs or go != ro):
         # the failing operation did not fail where it should: the run continues past it
         return "dropped-failing-operation"
@@ -185,14 +187,17 @@ def run(ctx):
                 ctx.broken_ties.append(("dump decoder", f"{k}: {[(s, v[0]) for s, v in o.items() if v[0].endswith('error')]}"))
                 prog_ok = False
                 continue
-            if any(v[0] == "fuel" for v in o.values()):
+            ref_stage = "core" if not o["core"][0].startswith("stuck") else "mono"
+            ref = o[ref_stage]
+            if ref[0] == "fuel" and not d.get("trace"):
+                # the reference run itself does not finish within the fuel: nothing to compare with.
+                # (A later stage that runs out of fuel while the reference finishes IS a divergence:
+                # e.g. a dropped loop-counter update.)
                 n_fuel += 1
                 continue
             n_eval += len(o)
             if sched == "lazy":
                 n_go_sched += 1
-            ref_stage = "core" if not o["core"][0].startswith("stuck") else "mono"
-            ref = o[ref_stage]
             if ref[0].startswith("stuck"):
                 ctx.broken_ties.append(("Sem cannot run the program (model gap)", f"{k}: {ref[0]}"))
                 prog_ok = False
